@@ -322,6 +322,27 @@ impl LspContext {
         Ok(())
     }
 
+    fn send_error(
+        &self,
+        id: RequestId,
+        code: lsp_server::ErrorCode,
+        message: String,
+    ) -> MosResult<()> {
+        let response = lsp_server::Response {
+            id,
+            result: None,
+            error: Some(lsp_server::ResponseError {
+                code: code as i32,
+                message,
+                data: None,
+            }),
+        };
+        if let Some(conn) = self.connection() {
+            conn.sender.send(Message::Response(response))?;
+        }
+        Ok(())
+    }
+
     fn find_definitions<'a>(
         &'a self,
         analysis: &'a Analysis,
@@ -464,7 +485,13 @@ impl LspServer {
                             return Ok(());
                         }
                     } else {
+                        // (every request gets a response)
                         log::trace!("unknown request: {:?}", req);
+                        ctx.send_error(
+                            req.id.clone(),
+                            lsp_server::ErrorCode::MethodNotFound,
+                            format!("unknown method: {}", req.method),
+                        )?;
                     }
                 }
             },
